@@ -783,7 +783,7 @@ Section FreshB.
     end.
   Lemma staleb_false t o : staleb t o = false -> ~ stale timeout a t o.
   Proof.
-    unfold staleb, stale. destruct o; try (intros _ []). intros Hb [r [Hr He]]. rewrite Hr in Hb. congruence.
+    unfold staleb, stale. destruct o; try (intros _ H0; exact H0). intros Hb [r [Hr He]]. rewrite Hr in Hb. congruence.
   Qed.
   Lemma fresh_fromb_ok : forall ops t, fresh_fromb t ops = true -> fresh_from timeout a t ops.
   Proof.
